@@ -16,7 +16,7 @@ HERE = os.path.dirname(os.path.abspath(__file__))
 sys.path.insert(0, os.path.dirname(HERE))
 
 from sa.model import Repo, AnalysisError  # noqa: E402
-from sa.report import Check  # noqa: E402
+from sa.report import Check, run_rules  # noqa: E402
 
 ALL = ["C%02d" % i for i in range(1, 21)]
 
@@ -24,7 +24,7 @@ ALL = ["C%02d" % i for i in range(1, 21)]
 def run_property(prop, tier, repo, seed=0, quiet=False, write=True):
     mod = importlib.import_module("sa.rules.%s" % prop.lower())
     chk = Check(prop, tier, repo, seed=seed, quiet=quiet)
-    mod.check(chk)
+    run_rules(mod, chk)
     if tier == "thorough" and hasattr(mod, "thorough"):
         mod.thorough(chk)
         if not chk.violations and os.environ.get("SA_NO_DEEP") != "1":
